@@ -35,6 +35,8 @@ type s2Msg struct {
 
 func (m s2Msg) String() string {
 	switch m.Kind {
+	case "IS":
+		return fmt.Sprintf("IS from s%d term=%d last=(%d,%d)", m.From, m.Term, m.LastIdx, m.LastTerm)
 	case "AE":
 		return fmt.Sprintf("AE from s%d term=%d prev=(%d,%d) entries=%d commit=%d", m.From, m.Term, m.Prev, m.PrevTerm, len(m.Entries), m.Commit)
 	default:
@@ -95,6 +97,22 @@ func genS2(ch *simrt.Chooser, thorough bool) []s2Msg {
 		default:
 			if from >= 3 {
 				from = 1
+			}
+			if ch.Choose(simrt.SWork, 4) == 0 {
+				// a leader of that term installs a snapshot some way beyond the server's log: on a store that can
+				// hold gaps the log stays where it was, so the server's last entry is now the snapshot's
+				m := s2Msg{Kind: "IS", From: from, Term: t, LastIdx: lastIdx + 2 + uint64(ch.Choose(simrt.SWork, 12)), LastTerm: t}
+				if t >= lastTerm {
+					if t < term {
+						m.LastTerm = lastTerm
+					}
+					if m.LastTerm < lastTerm {
+						m.LastTerm = lastTerm
+					}
+					lastIdx, lastTerm = m.LastIdx, m.LastTerm
+				}
+				seq = append(seq, m)
+				continue
 			}
 			m := s2Msg{Kind: "AE", From: from, Term: t, Prev: lastIdx, PrevTerm: lastTerm}
 			k := ch.Choose(simrt.SWork, 3)
@@ -296,12 +314,21 @@ func (w *World) s2Send(m s2Msg) {
 	addr := fmt.Sprintf("a%d", m.From)
 	hdr := raft.RPCHeader{ProtocolVersion: raft.ProtocolVersionMax, ID: []byte(from), Addr: []byte(addr)}
 	var req any
+	var snap []byte
 	kind := m.Kind
 	switch m.Kind {
 	case "RV":
 		req = &raft.RequestVoteRequest{RPCHeader: hdr, Term: m.Term, Candidate: []byte(addr), LastLogIndex: m.LastIdx, LastLogTerm: m.LastTerm, LeadershipTransfer: m.Transfer}
 	case "PV":
 		req = &raft.RequestPreVoteRequest{RPCHeader: hdr, Term: m.Term, LastLogIndex: m.LastIdx, LastLogTerm: m.LastTerm}
+	case "IS":
+		// the content is made up: the committed-history oracles do not apply to this run from here on
+		if w.or.tainted == "" {
+			w.or.tainted = "fabricated InstallSnapshot in the vote sweep"
+		}
+		snap = FSMState{Count: m.LastIdx, LastIdx: m.LastIdx, Chain: m.LastIdx*31 + m.LastTerm}.encode(0)
+		req = &raft.InstallSnapshotRequest{RPCHeader: hdr, SnapshotVersion: 1, Term: m.Term, Leader: []byte(addr), LastLogIndex: m.LastIdx, LastLogTerm: m.LastTerm,
+			Configuration: raft.EncodeConfiguration(w.or.initCfg), ConfigurationIndex: 1, Size: int64(len(snap))}
 	case "AE":
 		ae := &raft.AppendEntriesRequest{RPCHeader: hdr, Term: m.Term, Leader: []byte(addr), PrevLogEntry: m.Prev, PrevLogTerm: m.PrevTerm, LeaderCommitIndex: m.Commit}
 		for _, e := range m.Entries {
@@ -314,7 +341,7 @@ func (w *World) s2Send(m s2Msg) {
 		src = len(w.nodes) - 1
 	}
 	w.net.nextID++
-	msg := &Msg{ID: w.net.nextID, Kind: kind, Src: src, Dst: 0, Term: m.Term, Req: req, SentSeq: w.sim.Tick(), SentAt: w.now()}
+	msg := &Msg{ID: w.net.nextID, Kind: kind, Src: src, Dst: 0, Term: m.Term, Req: req, Snap: snap, SentSeq: w.sim.Tick(), SentAt: w.now()}
 	w.net.msgs = append(w.net.msgs, msg)
 	w.event("s2 send %s", m.String())
 	resCh := make(chan callResult, 2)
